@@ -155,6 +155,8 @@ def walk_type(ty, out, path):
         for i, r in enumerate(ty.variant_rows):
             for j, x in enumerate(r):
                 walk_type(x, out, f"{path}/v{i}.{j}")
+    elif isinstance(ty, t.PolyFuncType):
+        walk_type(ty.body, out, path + "/body")
     elif isinstance(ty, t.FunctionType):
         for i, x in enumerate(ty.input):
             walk_type(x, out, f"{path}/in{i}")
@@ -441,7 +443,8 @@ def gen_texpr(ch, depth=0):
         rows = [[gen_texpr(ch, depth + 1) for _ in range(ch.draw(3, "row"))] for _ in range(1 + ch.draw(2, "rows"))]
         return t.tys.Sum(rows) if any(rows) else t.tys.UnitSum(len(rows))
     if k == 7:
-        return t.tys.FunctionType([gen_texpr(ch, depth + 1) for _ in range(ch.draw(3, "fin"))], [gen_texpr(ch, depth + 1) for _ in range(ch.draw(2, "fout"))])
+        reqs = [[], ["verif.q"], ["b.ext", "a.ext"]][ch.draw(3, "runtime-reqs")]
+        return t.tys.FunctionType([gen_texpr(ch, depth + 1) for _ in range(ch.draw(3, "fin"))], [gen_texpr(ch, depth + 1) for _ in range(ch.draw(2, "fout"))], reqs)
     return t.tys.Variable(0, t.tys.TypeBound.Any)
 
 
@@ -461,10 +464,20 @@ def type_leg(ctx):
     walk_type(ty0, tmp, "t")
     if not tmp:
         ty0 = T().tys.Tuple(ty0, T().int_t(5))
-    ser = ty0._to_serial_root()
-    stored = ser.model_dump_json()
+    from hugr._serialization.tys import PolyFuncType as SPoly
     from hugr._serialization.tys import Type as SType
-    ty = SType.model_validate_json(stored).deserialize()  # fully opaque expression, as read from a document
+    poly = ch.coin(1, 6, "polymorphic-function-type")
+    if poly:
+        # the expression resolved is the polymorphic signature of a declaration (with its extension requirements)
+        t = T()
+        reqs = [["verif.q"], ["b.ext", "a.ext"], []][ch.draw(3, "runtime-reqs")]
+        ty0 = t.tys.PolyFuncType([t.tys.TypeTypeParam(t.tys.TypeBound.Any)],
+                                 t.tys.FunctionType([ty0, t.tys.Variable(0, t.tys.TypeBound.Any)], [ty0], reqs))
+        ctx.probe("polymorphic_function_type_resolved")
+    ser_of = (lambda x: x._to_serial()) if poly else (lambda x: x._to_serial_root())
+    ser = ser_of(ty0)
+    stored = ser.model_dump_json()
+    ty = (SPoly if poly else SType).model_validate_json(stored).deserialize()  # fully opaque expression, as read from a document
     ctx.ev("disk", "store-type", {"bytes": len(stored)})
     tree0 = []
     walk_type(ty, tree0, "t")
@@ -550,7 +563,7 @@ def type_leg(ctx):
                 if now and not was:
                     ctx.probe("type_resolved:" + where_of(path))
             ctx.checked("wire-invariant")
-            if json.loads(ty2._to_serial_root().model_dump_json()) != doc0:
+            if json.loads(ser_of(ty2).model_dump_json()) != doc0:
                 ctx.violate("wire-invariant", "type-document-changed", {"registry": groups})
             if ty2.type_bound().value != bound0:
                 ctx.violate("sig-invariant", "type-bound-changed", {"before": bound0, "after": ty2.type_bound().value})
